@@ -6,7 +6,7 @@ src = '/tmp/seeded-out/%s' % sid.split('-')[0] if not os.path.isdir('/tmp/seeded
 dst = '/verif/seeded/%s' % sid
 os.makedirs(dst, exist_ok=True)
 for f in os.listdir(src):
-    if os.path.isdir(os.path.join(src, f)) or (f.endswith(".log") and not f.startswith("confirm")):
+    if os.path.isdir(os.path.join(src, f)) or (f.endswith(".log") and not (f.startswith("confirm") or f.startswith("try_"))):
         continue
     shutil.copy(os.path.join(src, f), os.path.join(dst, f))
 conf = open(os.path.join(src, 'confirm.log')).read() if os.path.exists(os.path.join(src, 'confirm.log')) else ''
